@@ -91,6 +91,9 @@ def apply(contracts, funcs, clause_cls):
             for key in ("modifies", "local_frame"):
                 if ls.get(key) is not None:
                     ls[key] = [(f, _sub(c, mp)) for f, c in ls[key]]
+            for key in ("acc", "index", "seq", "seq_base"):      # contract-side names that happen to coincide with a renamed local
+                if ls.get(key) in mp:
+                    ls[key] = mp[ls[key]]
         con.calls = {k: [rc(c) for c in v] for k, v in con.calls.items()}
         con.ghost_after = {k: [_sub(s_, mp) for s_ in v] for k, v in con.ghost_after.items()}
         con.locals = {mp.get(k, k): v for k, v in con.locals.items()}
